@@ -806,6 +806,15 @@ def oracle_c18(rows):
             if k == "scan" and s["op"].get("outage") and s["rc"] == [0]:
                 fails.append(_fail(r, idx, "scan reported success although the refresh of the wallet's outputs it starts "
                                            "with failed (node outage): nothing has checked the records against the UTXO set"))
+            # the repair scan (also the one that drops unconfirmed records) leaves a reverted payment in the books:
+            # its output record stays (Reverted, or Unspent when mined again), its entry is not cancelled
+            if k == "scan" and s["rc"] == [0] and not s["op"].get("outage") and prev is not None:
+                now = outputs_by_key(snap)
+                for o in prev["outputs"]:
+                    if o["status"] == 4 and (o["acct"], o["child"], o["mmr"]) not in now:
+                        fails.append(_fail(r, idx, "scan%s dropped the record of the reverted output %s (value %s): the payment can "
+                                                   "no longer be found confirmed when it is mined again"
+                                           % (" -d" if s["op"].get("del") else "", (o["acct"], o["child"]), o["value"])))
             # a payment reported reverted stays reported so (or confirmed again) whatever else the wallet's
             # periodic update does: it is not a pending transaction that could expire
             if k in ("update_state", "refresh") and s["rc"] == [0] and prev is not None:
